@@ -149,4 +149,27 @@ def genPlaceAll : List Nat → NetM Unit
 the order of `node.interfaces.values()` -/
 def genIntegrateNode (first count : Nat) : NetM Unit := genPlaceAll (List.range' first count)
 
+/-- `self.nodes[vm_name] = self.new_node(vm)`: a node object without interfaces; not part of the registry state -/
+def newNode : NetM Unit := pure ()
+
+/-- `VMNetwork.__init__` of avocado_i2n/vmnet/network.py, cut by harness/pygen_pxnet.py: the last two statements of the loop over the vms; the interface objects of this vm are `first … first+count-1` -/
+def genInitNode (first : Nat) (count : Nat) : NetM (Unit) := do
+  newNode
+  genIntegrateNode first count
+  return ()
+
+/- the Python it was generated from (comments and docstring dropped):
+   def init_node():
+       self.nodes[vm_name] = self.new_node(vm)
+       self.integrate_node(self.nodes[vm_name])
+-/
+
+/-- `for vm_name in params.objects("vms"):` (matched structurally): `counts` = the number of nics of every vm, in
+order; the interface objects are numbered in creation order -/
+def genInit : Nat → List Nat → NetM Unit
+  | _, [] => pure ()
+  | first, count :: rest => do
+    genInitNode first count
+    genInit (first + count) rest
+
 end I2N.Extracted.GenNetwork
